@@ -20,13 +20,17 @@ RULE = ("a scenario is one history V0 -haplotag-> B, V0 -unphase-> U (optionally
         "independent worlds as chromosomes. 'gen' scenarios bundle TLC-enumerated tiny worlds (MC_TagPhaseChain: every call "
         "pattern over 3 sites with <= 2 contiguous phase sets, every multiset of <= 2 error-free reads that do not span two "
         "sets, every subset of kept sets); 'rand' scenarios are seeded larger worlds (<= 9 sites, <= 3 sets, indels, two "
-        "samples, mate pairs); 'hazard' scenarios are worlds in which a kept (pre-phased) set has a site that no tagged "
+        "samples, mate pairs); 'bxmol' scenarios are linked-read worlds (--linked-read-distance-cutoff 140): one barcode on several "
+        "molecules that start farther apart than the cutoff and copy different haplotypes, the reads of a molecule start within "
+        "half the cutoff; 'hazard' scenarios are worlds in which a kept (pre-phased) set has a site that no tagged "
         "read covers. A scenario is non-trivial if the chain succeeded, a read was tagged and W phases >= 2 sites that U "
         "did not")
 ASSUMPTIONS = [
     "reads are error-free copies of one haplotype of the sample's true allele pairs (alleles by construction), SNVs and unshiftable "
     "indels >= 50 bp apart on a homopolymer-free reference, each touched variant covered with >= 12 bp on both sides",
-    "no read (and no mate pair) covers phased sites of two phase sets; thresholds of haplotagphase at their defaults; diploid",
+    "no read (no mate pair, no barcode molecule) covers phased sites of two phase sets; thresholds of haplotagphase at their defaults; diploid",
+    "linked reads: the reads of one molecule copy one haplotype and start within half the linked-read cutoff, two molecules of one "
+    "barcode start farther apart than the cutoff (well-separated clouds; chains of reads are not generated)",
     "a call is identified with its GT text and PS value (raw); other FORMAT fields are not compared",
     "only sites that W phases are judged; a site that stays unphased is not a violation",
     "TLC evaluates TagPhaseChain.tla correctly; pysam/htslib parse the files",
@@ -141,6 +145,60 @@ def _rand_world(rng, nsmp):
     return ch
 
 
+CUTOFF, DCLOSE, DFAR = 140, 1, 4      # --linked-read-distance-cutoff; sites are 50 bp apart, read starts jitter by < 20 bp
+
+
+def _bx_world(rng, nsmp):
+    """linked reads: one barcode labels several molecules of a chromosome; the reads of a molecule start within CUTOFF/2 and
+    copy one haplotype inside one block, the molecules of a barcode start farther apart than CUTOFF and copy different
+    haplotypes (in the same or in different phase sets); the left molecule carries more, equal or less evidence"""
+    K = rng.randint(10, 13)
+    nb = rng.randint(1, 2)
+    cuts = [rng.randint(4, K - 4)] if nb > 1 else []
+    bounds = list(zip([0] + cuts, cuts + [K]))
+    blk = [next(k for k, (a, b) in enumerate(bounds) if a <= j < b) for j in range(K)]
+    sites = []
+    for j in range(K):
+        truth, mode, sets = [], [], []
+        for s in range(nsmp):
+            truth.append(rng.choice([[0, 1], [1, 0]]))
+            if rng.random() < 0.12:
+                mode.append("unphased")
+                sets.append(0)
+            else:
+                mode.append("phased")
+                sets.append(blk[j] + 1)
+        sites.append({"truth": truth, "mode": mode, "set": sets})
+    reads = []
+    mol = 0
+    for b in range(rng.randint(3, 8)):
+        s = rng.randrange(nsmp)
+        L = rng.randint(1, 2)
+        h = rng.randrange(2)
+        for m in range(rng.choice([1, 2, 2, 3])):
+            if L > K:
+                break
+            mol += 1
+            end = bounds[blk[L - 1]][1]                     # the molecule stays inside the block of its first site
+            for _ in range(rng.randint(1, 3)):
+                lo = rng.randint(L, min(end, L + DCLOSE))
+                hi = min(end, lo + rng.randint(0, 2))
+                reads.append({"smp": s + 1, "lo": lo, "hi": hi, "al": [sites[j - 1]["truth"][s][h] for j in range(lo, hi + 1)],
+                              "rev": rng.random() < 0.5, "pair": 0, "bx": b + 1, "mol": mol})
+            L = L + DCLOSE + DFAR + rng.randint(0, 1)
+            if rng.random() < 0.85:
+                h = 1 - h
+    for s in range(nsmp):
+        for _ in range(rng.randint(0, 3)):              # a few reads without barcode
+            a, bnd = rng.choice(bounds)
+            lo = rng.randint(a + 1, bnd)
+            hi = min(bnd, lo + rng.randint(0, 2))
+            h = rng.randrange(2)
+            reads.append({"smp": s + 1, "lo": lo, "hi": hi, "al": [sites[j - 1]["truth"][s][h] for j in range(lo, hi + 1)],
+                          "rev": rng.random() < 0.5, "pair": 0})
+    return {"sites": sites, "reads": reads, "keep": []}
+
+
 def _kinds(rng, ch, mode):
     for st in ch["sites"]:
         x = rng.random()
@@ -179,6 +237,11 @@ def scenarios(ctx):
         mode = rng.choice(["ref", "noref"])
         scs.append({"kind": "rand", "seed": rng.randrange(1 << 30), "mode": mode, "nsmp": nsmp,
                     "chroms": [_kinds(rng, _rand_world(rng, nsmp), mode) for _ in range(rng.randint(1, 3))]})
+    for _ in range(60 if q else 800):
+        nsmp = rng.choice([1, 1, 2])
+        mode = rng.choice(["ref", "noref"])
+        scs.append({"kind": "bxmol", "seed": rng.randrange(1 << 30), "mode": mode, "nsmp": nsmp,
+                    "chroms": [_kinds(rng, _bx_world(rng, nsmp), mode) for _ in range(rng.randint(1, 2))]})
     if not no_hazard:
         bundle(hazard if not q else hazard[:40], "hazard:prephased_uncovered", 8)
     ctx.notes["scenario_kinds"] = {k: sum(1 for s in scs if s["kind"] == k) for k in sorted({s["kind"] for s in scs})}
@@ -253,9 +316,11 @@ def drive(sc):
                 flag = 16 if r["rev"] else 0
                 name = f"r{xi}"
                 rd = {"name": name, "flag": flag, "ref": ci, "pos": rec["pos"], "mapq": 60, "cigar": rec["cigar"], "seq": rec["seq"],
-                      "qual": rec["qual"], "tags": [("XI", xi)], "rg": f"g{r['smp']}", "_pair": (ci, r["pair"]) if r["pair"] else None}
+                      "qual": rec["qual"], "tags": [("XI", xi)] + ([("BX", f"BC{r['smp']}-{r['bx']}")] if r.get("bx") else []),
+                      "rg": f"g{r['smp']}", "_pair": (ci, r["pair"]) if r["pair"] else None}
                 reads.append(rd)
-                absreads.append({"smp": r["smp"], "tpl": (1000 * (ci + 1) + r["pair"]) if r["pair"] else -xi,
+                absreads.append({"smp": r["smp"], "tpl": (500000 + 1000 * (ci + 1) + r["mol"]) if r.get("bx") else
+                                 (1000 * (ci + 1) + r["pair"]) if r["pair"] else -xi,
                                  "cov": [off + j for j in range(r["lo"], r["hi"] + 1)], "al": list(r["al"])})
             off += len(ch["sites"])
         # mates share a name and point at each other
@@ -286,7 +351,8 @@ def drive(sc):
         # 1. haplotag
         tagged = os.path.join(d, "tagged.bam")
         try:
-            run_haplotag(variant_file=v0, alignment_file=bam, output=tagged, reference=fasta if sc["mode"] == "ref" else False)
+            run_haplotag(variant_file=v0, alignment_file=bam, output=tagged, reference=fasta if sc["mode"] == "ref" else False,
+                         linked_read_distance_cutoff=CUTOFF)
             pysam.index(tagged)
             b = [{"hp": -1, "ps": -1} for _ in absreads]
             for r in W.read_bam_records(tagged):
